@@ -1241,6 +1241,9 @@ func init() {
 		c18conn(tier, seed, out)
 		if os.Getenv("VERIF_SHARD") == "" {
 			out.Line("%s", deadlineScenario())
+			for _, l := range c18ReadTimeoutCases() {
+				out.Line("%s", l)
+			}
 		}
 	}
 	c02conn := connProp("c02", "corr")
